@@ -11,7 +11,7 @@ from vlib import util as U
 # shared point / shape / parameter generators of the two polynomial properties live in c09
 from props.c09 import (H, make_points, shaped, point_shapes, array_shapes, shape_label, shape_tuple, size_of, ab_pairs, ab_class, orders, n_class,
                        variants, var_of, var_labels, present, as32, contain, rtol_of, reuse_check, call, settle_kind, HERMITES, nm_pairs as nm_pairs_ext,
-                       with_big_shapes)
+                       with_big_shapes, q2d_contain)
 
 RULE = ("Values: Hypothesis draws family, order (0..3 forced, otherwise uniform to 40 quick / 120 thorough; Zernike n to 30 / 60, "
         "Dickson n to 40 / 80, Q2d n to 12, |m| to 10; Gram matrices to N = 40 / 120 for the Jacobi family - capped at 40 when a weight "
@@ -36,6 +36,13 @@ RULE = ("Values: Hypothesis draws family, order (0..3 forced, otherwise uniform 
         "lists as list / tuple / ndarray, a float32 evaluation immediately before the checked one, rarely an array of more than 2**16 points, and a "
         "re-use check (kept result unchanged after a call with another order; after the caller overwrites its result in place the same call is still "
         "right); every array / list argument must come back unchanged.  Zernike (n, m) include the extremes m = +-n, 0 / +-1 and n up to 120.  "
+        "The Jacobi-family Gram matrices are formed twice: with the Gauss-Jacobi weights, and with their factor (1-x)^a (1+x)^b replaced by "
+        "prysm.polynomials.jacobi.weight(a, b, nodes) (orthogonal under the library's own weight); jacobi.weight itself is compared point by point with "
+        "(1-x)^alpha (1+x)^beta for symmetric and asymmetric pairs (parameters as Python numbers, numpy scalars, 0-D arrays; end points where both exponents "
+        "are >= 0).  The 2D-Q / Qbfs polynomials and their slopes are also taken through the sum evaluators with one coefficient set to 1 "
+        "(compute_z_zprime_Q2d through Q2d_nm_c_to_a_b or a hand-built table - drawn sets of 1..6 (n, m), n <= 8 / 12, |m| <= 20, so that azimuthal orders "
+        "without a term are empty rows before and between populated ones; compute_z_zprime_Qbfs for n = 0..N): the sag must be Q2d(n, m) / Qbfs(n), and the "
+        "returned analytic slopes must be orthonormal among themselves and against the complex-step slopes of Q2d / Qbfs under Forbes' inner product.  "
         "Non-trivial = order >= 6 or non-tabulated shape parameter or scalar / N-D points or a Gram entry with m != n or a non-default presentation "
         "of the arguments.")
 ASSUMPTIONS = [
@@ -520,6 +527,68 @@ def check_jacobi_gram(case, ctx):
     Gn = G / np.sqrt(np.outer(h, h))
     gram_assert(ctx, Gn, np.eye(N + 1), 1e-7, lambda i, j: (
         '%s_gram:%s' % (fam, 'norm' if i == j else 'orthogonality'), '<%s_%d, %s_%d> / sqrt(h_%d h_%d) (a=%r, b=%r)' % (fam, i, fam, j, i, j, a, b)))
+    # ... and under the library's own weight function: the Gauss-Jacobi weights carry (1-x)^a (1+x)^b, so replacing that factor by
+    # prysm.polynomials.jacobi.weight(a, b, x) at the nodes (all inside the open interval) must leave the Gram matrix where it is
+    from prysm.polynomials.jacobi import weight
+    wp = np.asarray(call(ctx, 'gram', weight, a, b, xarg))
+    U.check_shape(wp, np.shape(xarg), 'jacobi.weight', 'weight(%r, %r, nodes as %s)' % (a, b, lay))
+    wq = wg * wp.reshape(xg.shape) / weight_ref(a, b, xg)
+    ctx.label('own-weight:' + ('symmetric' if a == b else 'asymmetric'))
+    Gw = ((V * wq) @ V.T) / np.sqrt(np.outer(h, h))
+    gram_assert(ctx, Gw, np.eye(N + 1), 1e-7, lambda i, j: (
+        '%s_gram:under-jacobi.weight:%s:%s' % (fam, 'alpha=beta' if a == b else 'alpha!=beta', 'norm' if i == j else 'orthogonality'),
+        'int weight(%r, %r, x) %s_%d %s_%d dx / sqrt(h_%d h_%d), the weight taken from prysm.polynomials.jacobi.weight' % (a, b, fam, i, fam, j, i, j)))
+
+
+def weight_ref(a, b, x):
+    """(1-x)^a (1+x)^b in double precision"""
+    x = np.asarray(x, dtype=float)
+    return np.power(1.0 - x, float(a)) * np.power(1.0 + x, float(b))
+
+
+def strat_weight(tier):
+    return st.fixed_dictionaries({'p': ab_pairs(), 'p_as': st.sampled_from(['python', 'python', 'np64', '0-d']), 'shape': point_shapes(), 'edge': st.booleans(),
+                                  'seed': U.seeds, 'v': variants()})
+
+
+def check_weight(case, ctx):
+    """jacobi.weight(alpha, beta, x) == (1-x)^alpha (1+x)^beta, the weight the Jacobi family is orthogonal under (DLMF 18.3.1), point by point,
+    for symmetric and asymmetric (alpha, beta), whatever the presentation of x and of the two parameters."""
+    from prysm.polynomials.jacobi import weight
+    (a, b), shape = case['p'], case['shape']
+    v = var_of(case)
+    if v['xkind'] == 'int' and min(a, b) < 0:
+        v['xkind'] = 'f64'           # the integers of [-1, 1] include the end points, where a negative exponent has a pole
+    edge = case['edge'] and min(a, b) >= 0
+    x, base = make_points(case['seed'], shape, -1.0, 1.0, edge, kind=v['xkind'])
+    if min(a, b) < 0:      # float32 rounding never lands on a pole
+        x = float(np.clip(x, -1 + 2.0 ** -20, 1 - 2.0 ** -20)) if isinstance(x, float) else np.clip(x, -1 + 2.0 ** -20, 1 - 2.0 ** -20)
+    xarg = present(x, shape, v)
+    how = case.get('p_as', 'python')
+    conv = {'python': lambda q: q, 'np64': np.float64, '0-d': lambda q: np.array(float(q))}[how]
+    aarg, barg = conv(a), conv(b)
+    sym = 'alpha=beta' if a == b else 'alpha!=beta'
+    ctx.label(sym, ab_class(a, b), shape_label(shape), 'edge' if edge else 'interior', 'params-as:' + how,
+              'negative-exponent' if min(a, b) < 0 else 'exponents>=0')
+    var_labels(ctx, v, shape)
+    ctx.nt(True)
+    if v['pre32']:
+        call(ctx, 'float32', weight, aarg, barg, as32(xarg))
+    want = weight_ref(a, b, x)
+    rt = 1e-4 if v['xkind'] == 'f32' else 1e-12       # observed 2e-7 / 4e-16 on the unchanged code
+
+    def verify(got, bucket):
+        got = np.asarray(got)
+        U.check_shape(got, shape_tuple(shape), bucket, 'weight(%r, %r, x) for x of shape %s' % (a, b, shape))
+        bad = ~((np.abs(got - want) <= rt * np.abs(want)) | (got == want))
+        if np.any(bad):
+            i = np.unravel_index(int(np.argmax(bad)), bad.shape) if bad.ndim else ()
+            ctx.fail(bucket, 'weight(alpha=%r, beta=%r, x: %s %s) at x=%r: got %r, (1-x)^alpha (1+x)^beta = %r (rtol %.1g); %d/%d points differ' % (
+                a, b, v['xkind'], shape_label(shape), np.asarray(x)[i], got[i], want[i], rt, int(bad.sum()), bad.size))
+    bucket = 'jacobi.weight:' + sym
+    got = call(ctx, sym, weight, aarg, barg, xarg)
+    verify(got, bucket)
+    reuse_check(ctx, v, bucket, got, (xarg,), lambda: ctx.call(weight, b + 1, a, xarg), lambda: ctx.call(weight, aarg, barg, xarg), verify)
 
 
 # ---- Forbes polynomials -------------------------------------------------------------------------------------
@@ -661,6 +730,25 @@ def check_qbfs_gram(case, ctx):
     D = np.array([np.imag(call(ctx, 'gram', Qbfs, n, uc)) / H for n in range(N + 1)])
     G = D @ D.T / K     # (2/pi) * (1/2) * (pi/K) * sum over the symmetric nodes
     gram_assert(ctx, G, np.eye(N + 1), 1e-8, lambda i, j: ('Qbfs_gram:%s' % ('norm' if i == j else 'orthogonality'), "<S_%d', S_%d'>" % (i, j)))
+    # the same polynomials and slopes through the sum evaluator with one coefficient set to 1 (the slope it returns is analytic);
+    # nodes in (0, 1): the integrand is even in u
+    from prysm.polynomials.qpoly import compute_z_zprime_Qbfs
+    up = un[:K // 2].copy()
+    rows = []
+    for n in range(N + 1):
+        res = call(ctx, 'one-coefficient', compute_z_zprime_Qbfs, [0.0] * n + [1.0], up, up * up)
+        ctx.require(isinstance(res, tuple) and len(res) == 2, 'compute_z_zprime_Qbfs:return', 'expected (z, zprime)')
+        U.check_close(res[0], ctx.call(Qbfs, n, up), 1e-9, 'compute_z_zprime_Qbfs:one-coefficient:value',
+                      'compute_z_zprime_Qbfs with the coefficient of order %d set to 1 vs Qbfs(%d, u)' % (n, n), atol=1e-9)
+        U.check_shape(res[1], up.shape, 'compute_z_zprime_Qbfs:one-coefficient', 'slope of order %d' % n)
+        rows.append(np.asarray(res[1]))
+    Da = np.array(rows)
+    gram_assert(ctx, Da @ Da.T * 2 / K, np.eye(N + 1), 1e-8, lambda i, j: (
+        'compute_z_zprime_Qbfs:one-coefficient:slope-gram:%s' % ('norm' if i == j else 'orthogonality'),
+        "<S_%d', S_%d'>, both slopes as returned by compute_z_zprime_Qbfs" % (i, j)))
+    gram_assert(ctx, Da @ D[:, :K // 2].T * 2 / K, np.eye(N + 1), 1e-8, lambda i, j: (
+        'compute_z_zprime_Qbfs:one-coefficient:slope-gram-vs-Qbfs:%s' % ('norm' if i == j else 'orthogonality'),
+        "<S_%d' as returned by compute_z_zprime_Qbfs, S_%d' by complex step of Qbfs>" % (i, j)))
     for n in range(0, N + 1, max(1, N // 12)):
         def q(z, n=n):
             return Qbfs(n, np.sqrt(z)) / (z * (1 - z))
@@ -714,6 +802,83 @@ def check_q2d_gram(case, ctx):
                 return Q2d(n, am, u, np.zeros_like(u)) / u ** am
             poly_degree_and_sign(ctx, q, n, 'Q2d', 'Q2d(%d,%d,u,0)/u^%d as a polynomial in u^2' % (n, am, am))
 
+
+# ---- 2D-Q polynomials and their slopes through the sum evaluator (one coefficient set to 1) -----------------------------
+def strat_q2d_onehot(tier):
+    NN = {'quick': 8, 'thorough': 12}[tier]
+    mode = st.tuples(st.integers(0, NN), st.one_of(st.integers(-4, 4), st.integers(-10, 10), st.sampled_from([-14, 14, 20, -20]))).map(list)
+    return st.fixed_dictionaries({'nms': st.lists(mode, min_size=1, max_size=6, unique_by=lambda t: (t[0], t[1])),
+                                  'table': st.sampled_from(['packer-one', 'packer-all', 'direct', 'direct-all']),
+                                  'cs_as': st.sampled_from(['list', 'list', 'tuple', 'array']), 'layout': U.layouts})
+
+
+def q2d_table(nms, k, how):
+    """(cm0, ams, bms) with the coefficient of mode k set to 1; 'all': the rows of the other modes are present and hold zeros,
+    'one': only the rows of mode k exist - every azimuthal order below |m_k| is an empty row"""
+    use = list(nms) if how == 'all' else [nms[k]]
+    M = max(abs(m) for _, m in use)
+    cm0, ams, bms = [], [[] for _ in range(M)], [[] for _ in range(M)]
+    for n, m in use:
+        row = cm0 if m == 0 else ams[m - 1] if m > 0 else bms[-m - 1]
+        row += [0.0] * (n + 1 - len(row))
+    n, m = nms[k]
+    (cm0 if m == 0 else ams[m - 1] if m > 0 else bms[-m - 1])[n] = 1.0
+    return cm0, ams, bms
+
+
+def check_q2d_onehot(case, ctx):
+    """compute_z_zprime_Q2d with one coefficient set to 1 (through Q2d_nm_c_to_a_b or a hand-built table; azimuthal orders with no
+    term are empty rows, before and between the populated ones) returns the polynomial Q_n^m - the one q2d_gram pins - and its
+    radial / azimuthal slopes: orthonormal among themselves and against the complex-step slopes of Q2d under Forbes' inner product."""
+    from prysm.polynomials import Q2d
+    from prysm.polynomials.qpoly import compute_z_zprime_Q2d, Q2d_nm_c_to_a_b
+    nms = [(int(n), int(m)) for n, m in case['nms']]
+    table, lay, cs_as = case['table'], case.get('layout', 'C'), case.get('cs_as', 'list')
+    ctx.nt(True)
+    nmax = max(n for n, _ in nms)
+    mmax = max(abs(m) for _, m in nms)
+    K = 2 * nmax + mmax + 10
+    K += K % 2
+    T = 2 * mmax + 3
+    un = cheb_nodes(K)[:K // 2]      # the nodes in (0, 1): after the (exact) sum over theta the integrand is even in u
+    th = 2 * np.pi * np.arange(T) / T
+    Ug, Tg = np.meshgrid(un, th, indexing='ij')
+    Ua, Ta = U.relayout(Ug.copy(), lay), U.relayout(Tg.copy(), lay)
+    ctx.tally('gram_entries', 2 * len(nms) ** 2)
+    ctx.label('table:' + table, 'layout:' + lay, 'cs-as:' + cs_as, 'modes=%d' % len(nms))
+    rows_a, rows_c = [], []
+    for k, (n, m) in enumerate(nms):
+        if table.startswith('packer'):
+            use = nms if table == 'packer-all' else [nms[k]]
+            cs = [1.0 if j == k else 0.0 for j in range(len(nms))] if table == 'packer-all' else [1.0]
+            cm0, ams, bms = call(ctx, 'one-hot', Q2d_nm_c_to_a_b, [tuple(e) for e in use], cs)
+        else:
+            use = nms if table == 'direct-all' else [nms[k]]
+            cm0, ams, bms = q2d_contain(*q2d_table(nms, k, 'all' if table == 'direct-all' else 'one'), cs_as)
+        orders = sorted({abs(mm) for _, mm in use if mm != 0})
+        gap = 'no-azimuthal-order' if not orders else 'empty-orders:none' if orders == list(range(1, len(orders) + 1)) else \
+            'empty-orders:leading' if orders == list(range(orders[0], orders[0] + len(orders))) else 'empty-orders:between'
+        ctx.label(gap, 'm=0' if m == 0 else 'm=1' if abs(m) == 1 else 'm=2,3' if abs(m) <= 3 else 'm=4..10' if abs(m) <= 10 else 'm>10')
+        res = call(ctx, gap, compute_z_zprime_Q2d, cm0, ams, bms, Ua, Ta)
+        ctx.require(isinstance(res, tuple) and len(res) == 3, 'compute_z_zprime_Q2d:return', 'expected (z, dr, dt)')
+        z, dr, dt = (np.asarray(e) for e in res)
+        want = np.asarray(ctx.call(Q2d, n, m, Ug, Tg))
+        what = 'compute_z_zprime_Q2d with the coefficient of (n=%d, m=%d) set to 1 (%s, modes of the table %s)' % (n, m, table, use)
+        for e, nm in ((z, 'sag'), (dr, 'radial slope'), (dt, 'azimuthal slope')):
+            U.check_shape(e, Ug.shape, 'compute_z_zprime_Q2d:one-coefficient:' + gap, nm + ' of ' + what)
+        U.check_close(z, want, 1e-9, 'compute_z_zprime_Q2d:one-coefficient:value:' + gap, what + ' vs Q2d(%d, %d, u, t)' % (n, m), atol=1e-9)
+        rows_a.append(np.concatenate([dr.ravel(), (dt / Ug).ravel()]))
+        rows_c.append(np.concatenate([(np.imag(ctx.call(Q2d, n, m, Ug + 1j * H, Tg + 0j)) / H).ravel(),
+                                      (np.imag(ctx.call(Q2d, n, m, Ug + 0j, Tg + 1j * H)) / H / Ug).ravel()]))
+    Da, Dc = np.array(rows_a), np.array(rows_c)
+    wgt = (np.pi / K) * (2 * np.pi / T) / np.pi ** 2
+    eye = np.eye(len(nms))
+    gram_assert(ctx, Da @ Da.T * wgt, eye, 1e-8, lambda i, j: (
+        'compute_z_zprime_Q2d:one-coefficient:slope-gram:%s' % ('norm' if i == j else 'orthogonality'),
+        '<grad Q%s, grad Q%s>, both gradients as returned by compute_z_zprime_Q2d (%s)' % (nms[i], nms[j], table)))
+    gram_assert(ctx, Da @ Dc.T * wgt, eye, 1e-8, lambda i, j: (
+        'compute_z_zprime_Q2d:one-coefficient:slope-gram-vs-Q2d:%s' % ('norm' if i == j else 'orthogonality'),
+        '<grad Q%s as returned by compute_z_zprime_Q2d (%s), grad Q%s by complex step of Q2d>' % (nms[i], table, nms[j])))
 
 
 # ---- sequence evaluators against the same independent definitions ----------------------------------------
@@ -897,5 +1062,7 @@ CLAUSES = [
     HypClause('q_values', strat_q_values, check_q_values, examples={'quick': 600, 'thorough': 3000}, shards={'quick': 1, 'thorough': 4}),
     EnumClause('qbfs_gram', enum_qbfs_gram, check_qbfs_gram, shards={'quick': 4, 'thorough': 6}),
     HypClause('q2d_gram', strat_q2d_gram, check_q2d_gram, examples={'quick': 100, 'thorough': 500}, shards={'quick': 2, 'thorough': 8}),
+    HypClause('jacobi_weight', strat_weight, check_weight, examples={'quick': 400, 'thorough': 2000}, shards={'quick': 1, 'thorough': 2}),
+    HypClause('q2d_one_coefficient', strat_q2d_onehot, check_q2d_onehot, examples={'quick': 300, 'thorough': 1500}, shards={'quick': 1, 'thorough': 4}),
     HypClause('values_seq', strat_seq, check_seq, examples={'quick': 500, 'thorough': 3000}, shards={'quick': 2, 'thorough': 8}),
 ]
